@@ -102,6 +102,7 @@ def execute(scn: dict, prop: str, aspects, on_step=None, send_strict=(1,), keep=
                         model.pres_outstanding.clear()
                         model.pres_maybe.clear()
                         model.handed_out.clear()  # a new process knows what the file says, nothing else
+                        model.held_other.clear()
                         for node in model.nodes.values():
                             node["reboot"] = False
                         model.version, model.proto = None, "1.4"
